@@ -14,7 +14,8 @@ open ClassRead ClassRead.Spec
 /-! preconditions of the blocks of `write`, from the last block backwards: the single-instance attribute fields the
 remaining blocks set are still unset -/
 
-abbrev PreRecord (st : ClassAcc) : Prop := st.2.2 = false
+abbrev PreBootstrap (st : ClassAcc) : Prop := st.2.1 = none
+abbrev PreRecord (st : ClassAcc) : Prop := st.2.2 = false ∧ PreBootstrap st
 abbrev PrePermitted (st : ClassAcc) : Prop := st.1.permittedSubclasses = none ∧ PreRecord st
 abbrev PreNestMembers (st : ClassAcc) : Prop := st.1.nestMembers = none ∧ PrePermitted st
 abbrev PreNestHost (st : ClassAcc) : Prop := st.1.nestHost = none ∧ PreNestMembers st
@@ -30,11 +31,11 @@ abbrev PreInner (st : ClassAcc) : Prop := st.1.innerClasses = none ∧ PreEnclos
 /-- the single-instance attribute fields the blocks of `write` set are still unset, no `Record` attribute was seen -/
 abbrev FreshC (st : ClassAcc) : Prop := PreInner st
 
-theorem classAttrs_spec {t : ClassFacts} {p p' : Pool} {bs : List Bytes} (hg : Good p) (hok : ClassOk t)
-    (h : runAttrs (classAttrs t []) p = .ok (bs, p')) :
+theorem classAttrs_spec {t : ClassFacts} {bsm : List Bsm} {p p' : Pool} {bs : List Bytes} (hg : Good p) (hok : ClassOk t)
+    (hb : BsOk bsm) (h : runAttrs (classAttrs t bsm) p = .ok (bs, p')) :
     Step p p' ∧ ∃ as : List SClassAttr, bs = as.map SClassAttr.frame ∧ (∀ a ∈ as, Sound p' (fun rp => a.Legal rp)) ∧
       ∀ st : ClassAcc, FreshC st → applyAll SClassAttr.apply st as =
-        some (withAttrsOf st.1 t, st.2.1, st.2.2 || !t.recordComponents.isEmpty) := by
+        some (withAttrsOf st.1 t, bsTable bsm, st.2.2 || !t.recordComponents.isEmpty) := by
   unfold classAttrs at h
   simp only [List.cons_append, List.nil_append, List.append_assoc] at h
   obtain ⟨o1, q1, r1, e1, k1, rfl⟩ := runAttrs_cons_inv h
@@ -54,11 +55,6 @@ theorem classAttrs_spec {t : ClassFacts} {p p' : Pool} {bs : List Bytes} (hg : G
   obtain ⟨o14, q14, r15, e14, k14, rfl⟩ := runAttrs_cons_inv k13
   obtain ⟨o15, q15, r16, e15, k15, rfl⟩ := runAttrs_cons_inv k14
   obtain ⟨o16, q16, r17, e16, k16, rfl⟩ := runAttrs_cons_inv k15
-  have h16 : o16 = none ∧ q16 = q15 := by
-    rcases onlyIf_inv e16 with ⟨hc, _⟩ | ⟨_, h1, h2⟩
-    · simp at hc
-    · exact ⟨h1, h2⟩
-  obtain ⟨rfl, rfl⟩ := h16
   obtain ⟨t1, c1⟩ := flagAttr_spec hg e1
   obtain ⟨t2, c2⟩ := flagAttr_spec t1.good e2
   obtain ⟨t3, c3⟩ := innerAttr_spec t2.good e3
@@ -77,8 +73,10 @@ theorem classAttrs_spec {t : ClassFacts} {p p' : Pool} {bs : List Bytes} (hg : G
   obtain ⟨t13, c13⟩ := classListAttr_spec t12.good e13
   obtain ⟨t14, c14⟩ := classListAttr_spec t13.good e14
   obtain ⟨t15, c15⟩ := recordAttr_spec t14.good hok.record e15
-  obtain ⟨t17, ncs, hlen, rfl, hunk⟩ := unknownAttrs_spec t.attrs t15.good k16
-  have s15 := t17
+  obtain ⟨t16, c16⟩ := ablock_bootstrap hb t15.good e16
+  obtain ⟨t17, ncs, hlen, rfl, hunk⟩ := unknownAttrs_spec t.attrs t16.good k16
+  have s16 := t17
+  have s15 := t16.trans s16
   have s14 := t15.trans s15
   have s13 := t14.trans s14
   have s12 := t13.trans s13
@@ -115,8 +113,10 @@ theorem classAttrs_spec {t : ClassFacts} {p p' : Pool} {bs : List Bytes} (hg : G
     (Blocks.cons (block_nestMembers hok.nestMembers c13) s13.le
     (Blocks.cons (block_permitted hok.permitted c14) s14.le
     (Blocks.consA (ablock_record c15) s15.le
+    (Blocks.consA c16 s16.le
       (blocks_unknown hok.unknown hlen hunk)
-      (pre := PreRecord) (fun c h => ⟨h, trivial⟩))
+      (pre := PreBootstrap) (fun c h => ⟨h, trivial⟩))
+      (pre := PreRecord) (fun c h => ⟨h.1, h.2⟩))
       (pre := PrePermitted) (fun c h => ⟨h.1, h.2⟩))
       (pre := PreNestMembers) (fun c h => ⟨h.1, h.2⟩))
       (pre := PreNestHost) (fun c h => ⟨h.1, h.2⟩))
@@ -213,8 +213,8 @@ theorem writeClass_layout (t : ClassFacts) (hfrag : InWriterFragment t) (bytes :
   obtain ⟨s3, ils, rfl, him, hilt, hir⟩ := refList_spec (At := ClsAt) (fun p p' c i hg h => putClass_spec hg h)
     (fun p p' i c hle a => a.mono hle) s2.good h3
   obtain ⟨s4, fls, rfl, hfll, hfsd, hff⟩ := writeFields_spec t.fields s3.good hok.fields h5
-  obtain ⟨rfl, s5, mls, rfl, hmll, hmsd, ms', hmr, hmf⟩ := writeMethods_spec t.methods s4.good hok.methods h7
-  obtain ⟨s6, als, rfl, hasd, haf⟩ := classAttrs_spec s5.good hok h8
+  obtain ⟨⟨s5, _, hbs⟩, mls, rfl, hmll, hmsd, ms', hmr, hmf⟩ := writeMethods_spec t.methods s4.good bsOk_nil hok.methods h7
+  obtain ⟨s6, als, rfl, hasd, haf⟩ := classAttrs_spec s5.good hok hbs h8
   obtain ⟨hal, rfl⟩ := attrsBytes_inv h9
   have hgf : Good pf := s6.good
   have e6 : Ext pf pf := Ext.refl hgf
@@ -226,7 +226,7 @@ theorem writeClass_layout (t : ClassFacts) (hfrag : InWriterFragment t) (bytes :
   let c : ClassLayout :=
     { minor := t.minor, major := t.major, pool := rentries pf, access := t.access, thisCp := ti, name := t.name,
       superCp := si, super := t.super, interfaces := ils, fields := fls, methods := mls, attrs := als }
-  have hbase : FreshC (c.base, none, false) := ⟨rfl, rfl, rfl, rfl, rfl, rfl, rfl, rfl, rfl, rfl, rfl, rfl⟩
+  have hbase : FreshC (c.base, none, false) := ⟨rfl, rfl, rfl, rfl, rfl, rfl, rfl, rfl, rfl, rfl, rfl, rfl, rfl⟩
   have hacc := haf (c.base, none, false) hbase
   have hfacts : c.facts = some { t with methods := ms' } := by
     simp only [ClassLayout.facts, hacc, c, hff, hmf]
@@ -235,6 +235,9 @@ theorem writeClass_layout (t : ClassFacts) (hfrag : InWriterFragment t) (bytes :
     simp_all [withAttrsOf, ClassLayout.base]
   have hresolve : t.resolve = some { t with methods := ms' } := by
     simp [ClassFacts.resolve, hmr, bind, Option.bind]
+  have hbsms : c.bsms = bsTable bs := by
+    show (match applyAll SClassAttr.apply (c.base, none, false) als with | some (_, b, _) => b | none => none) = _
+    rw [hacc]
   refine ⟨c, ?_, ?_, _, hresolve, hfacts⟩
   · -- the bytes
     simp only [ClassLayout.encode, c, poolBytes_eq hgf.1 hpb, encAttrs_eq, hfll, hmll, List.length_map, encRefs]
@@ -242,7 +245,7 @@ theorem writeClass_layout (t : ClassFacts) (hfrag : InWriterFragment t) (bytes :
     rfl
   · -- legality
     refine ⟨hok.version, hpoolok, ?_, hok.access, ⟨hti, getObjClass_of hgf (a1.mono e1.le) hok.name⟩, ⟨hsi, ?_⟩,
-      hilt, ?_, (by show fls.length < 65536; omega), fun f hf => hfsd f hf pf e4, (by show mls.length < 65536; omega), fun m hm => hmsd m hm _ pf e5, ?_,
+      hilt, ?_, (by show fls.length < 65536; omega), fun f hf => hfsd f hf pf e4, (by show mls.length < 65536; omega), fun m hm => by rw [hbsms]; exact hmsd m hm pf bs e5 (BsExt.refl _), ?_,
       fun a ha => hasd a ha pf e6, by simp [hfacts]⟩
     · show poolCount (rentries pf) < 65536
       rw [poolCount_rentries hgf.1]
